@@ -24,7 +24,7 @@ CONSTANTS Keys,        \* keys of the map that is ranged over
 (* ---------------- Part B ---------------- *)
 Perms(S) == {p \in [1..Cardinality(S) -> S] : \A i, j \in DOMAIN p : i # j => p[i] # p[j]}
 \* keys are integers here: sorting = the ascending permutation
-SortSeq(p) == CHOOSE q \in Perms({p[i] : i \in DOMAIN p}) : \A i, j \in DOMAIN q : i < j => q[i] < q[j]
+AscSeq(p) == CHOOSE q \in Perms({p[i] : i \in DOMAIN p}) : \A i, j \in DOMAIN q : i < j => q[i] < q[j]
 
 (* ---------------- Part C ---------------- *)
 VARIABLES order,     \* Part B: the permutation the runtime happened to choose, per run
@@ -53,7 +53,7 @@ Customise(r) ==
 \* used are those of the clone
 Render(r) ==
   /\ pc[r] = "render"
-  /\ out' = [out EXCEPT ![r] = <<IF Sorted THEN SortSeq(order[r]) ELSE order[r], clone[r]>>]
+  /\ out' = [out EXCEPT ![r] = <<IF Sorted THEN AscSeq(order[r]) ELSE order[r], clone[r]>>]
   /\ pc' = [pc EXCEPT ![r] = "done"] /\ UNCHANGED <<order, shared, lock, clone>>
 Next == \E r \in Runs : Acquire(r) \/ Clone(r) \/ Release(r) \/ Customise(r) \/ Render(r)
 Spec == Init /\ [][Next]_vars
